@@ -19,7 +19,9 @@ LEVEL = "exploration"
 RULE = ("(a) exhaustive: every string of <=4 (quick) / <=5 (thorough) characters over the 19-character alphabet ( ) [ ] { } * + ? | \\ ^ $ . - , : a 1, "
         "each compiled by rset_make and rstr_make (ICASE off/on) and matched against a family of 8 lines under the 4 NOTBOL/NOTEOL "
         "combinations with the offsets validated in the ASan probe; (b) Hypothesis byte strings over 1..255 up to 300 bytes with boosted "
-        "metacharacters, huge/inverted/empty bounds, >64 groups, >128 repetitions; (c) coverage-guided libFuzzer campaign (fuzz_rx.c, "
+        "metacharacters, huge/inverted/empty bounds, >64 groups, >128 repetitions; (a') size-parameter sweep: 16 pattern families (groups in "
+        "sequence / nested / alternated / repeated, repetition bounds, bracket sizes, literal lengths) at EVERY size 1..150 (quick) / 1..400 "
+        "(thorough) with a line the whole pattern matches; (c) coverage-guided libFuzzer campaign (fuzz_rx.c, "
         "semantic oracle inside the target).  Non-trivial = pattern compiled AND contains a construct the reference parser calls malformed, "
         "or was rejected; for (a) every pattern with a metacharacter counts; distinct by the pattern string")
 ASSUMPTIONS = ["lines are valid UTF-8 and newline terminated; patterns are arbitrary NUL-free byte strings",
@@ -81,6 +83,18 @@ def run_case(env, c):
             frames = [l.strip()[:160] for l in err.splitlines() if l.strip().startswith("#")][:4]
             return Outcome(False, True, ["fuzz"], detail={"why": m.group(1) if m else "fuzz target failed", "frames": frames})
         return Outcome(True, True, ["fuzz"])
+    if c["kind"] == "sweep":
+        p = probe.get(env)
+        line = c["line"]
+        try:
+            r = p.call("c11", 1 if c["icase"] else 0, probe.hx(c["pat"]), 3, probe.hx(line + b"\n"), probe.hx(b"\n"), probe.hx(line[:-1] + b"\n"))[0]
+        except probe.ProbeCrash as e:
+            return Outcome(False, True, ["sweep"], detail={"why": "memory error while compiling/matching", "pat": c["pat"], "err": e.err[-1800:]})
+        except probe.ProbeTimeout:
+            return Outcome(True, False, ["probe_timeout_inconclusive"], inconclusive=True)
+        if r[3]:
+            return Outcome(False, True, ["sweep"], detail={"why": "offsets out of range / order (code %d)" % r[4], "pat": c["pat"], "result": r})
+        return Outcome(True, True, ["sweep"])
     patb = c["pat"]
     if _explosive(patb):
         return Outcome(True, False, ["excluded_explosive_F22"])
@@ -132,6 +146,57 @@ def _exh(args):
     return n, nt, excl, rej, viol
 
 
+def _sweep_patterns(k):
+    """families that put one size parameter k at every value: group counts (sequence, nesting, alternation, under a repetition),
+    repetition bounds, bracket sizes, literal lengths.  Each comes with a line on which the whole pattern matches, so every group
+    mark and every repetition counter is actually written."""
+    a = b"a"
+    fam = [
+        (b"(a)" * k, a * k),
+        (b"(a)" * k + b".[b]$", a * k + b"xb"),
+        (b"(" * k + a + b")" * k, a),
+        (b"|".join(b"(" + bytes([0x62 + (i % 20)]) + b")" for i in range(k - 1)) + b"|(a)", a),
+        (b"(" + b"(a)" * max(1, k - 1) + b")+", a * (2 * max(1, k - 1))),
+        (b"a{%d}" % k, a * k),
+        (b"a{%d,}" % k, a * (k + 1)),
+        (b"a{1,%d}b" % k, a * k + b"b"),
+        (b"(a){%d}" % k, a * k),
+        (b"(a{2}){%d}" % (k // 2 + 1), a * (2 * (k // 2 + 1))),
+        (b"[" + bytes(0x30 + (i % 70) for i in range(k)) + b"]+", bytes(0x30 + (i % 70) for i in range(k))),
+        (b"[" + b"".join(b"%c-%c" % (0x41 + i % 26, 0x41 + i % 26) for i in range(k)) + b"]", b"C"),
+        (b"[[:alpha:]]" * k, a * k),
+        (a * k, b"b" + a * k),
+        ("é".encode() * k, "xé".encode() + "é".encode() * k),
+        (b"\\<" + a * k + b"\\>", b" " + a * k + b" "),
+    ]
+    return fam
+
+
+def _sweep(args):
+    path, ks = args
+    p = probe.Probe(path, timeout=20.0)
+    n = comp = 0
+    viol = []
+    for k in ks:
+        for pat, line in _sweep_patterns(k):
+            for ic in (0, 1):
+                n += 1
+                try:
+                    r = p.call("c11", ic, probe.hx(pat), 3, probe.hx(line + b"\n"), probe.hx(b"\n"), probe.hx(line[:-1] + b"\n"))[0]
+                    why = ("offsets out of range / order (code %d)" % r[4]) if r[3] else None
+                    comp += bool(r[0])
+                except probe.ProbeCrash as e:
+                    why = "memory error: " + e.err[-600:]
+                    p = probe.Probe(path, timeout=20.0)
+                except probe.ProbeTimeout:
+                    why = None          # slow is not judged here
+                    p = probe.Probe(path, timeout=20.0)
+                if why and len(viol) < 2:
+                    viol.append({"case": {"kind": "sweep", "pat": pat, "line": line, "icase": bool(ic)}, "why": why})
+    p.close()
+    return n, comp, viol
+
+
 def _seeds(src, corpus):
     """seed inputs: a few valid patterns from conf.h plus hand-made ones"""
     pats = [b"a(b|c)*d", b"^[a-z]+$", b"\\<foo\\>", b"[[:alpha:]_][[:alnum:]_]*", b"(a)(b)\\.", b"x{2,3}", b"^$"]
@@ -160,6 +225,15 @@ def extra(env, tier, seed):
     out = [{"name": "all_pattern_strings_le_%d_over_19_metacharacters" % maxlen, "exhaustive": True, "evaluations": n, "distinct_nontrivial": nt,
             "excluded_explosive": sum(r[2] for r in res), "rejected_by_compiler": sum(r[3] for r in res), "lines": [l.decode() for l in LINES],
             "samples": ["(a|", "[[:", "a{1,", "\\(\\)", "a{,}*"], "violations": [{"case": v["case"]} for r in res for v in r[4]][:3]}]
+    # size-parameter sweep: every group count / repetition bound / bracket size / literal length 1..K
+    K = 150 if tier == "quick" else 400
+    ks = list(range(1, K + 1))
+    jobs = [(env.paths["psrv"], ks[i::16]) for i in range(16)]
+    with multiprocessing.get_context("fork").Pool(16) as pool:
+        res = pool.map(_sweep, jobs)
+    out.append({"name": "size_parameter_sweep_1_to_%d" % K, "exhaustive": True, "evaluations": sum(r[0] for r in res),
+                "distinct_nontrivial": sum(r[1] for r in res), "families": [x[0].decode("latin-1") for x in _sweep_patterns(3)],
+                "samples": ["(a)" * 3, "a{3,}", "[012]+"], "violations": [{"case": v["case"]} for r in res for v in r[2]][:3]})
     # libFuzzer campaign
     root = os.path.dirname(env.root)
     corpus = os.path.join(root, "fz_corpus")
